@@ -9,8 +9,8 @@ the write schema read from /repo's `src/fs/hash.go` on this run (the digest is i
 
 Full-strength statement: `Distinguishes schema` — at a repo-managed path, two well-formed trees with equal
 pre-images are equal.  The pinned code violates it (`C09_violated`, seven kernel-checked witnesses).
-What does hold is proved as `C09_classified` (every collision falls into one of four named root causes —
-outside them the property holds) and the `…_partial` theorems; `C09_full_framed` shows that the framed
+What does hold: `C09_dir_iff` / `C09_symlink_iff` (the exact collision conditions), `C09_classified` (the four named
+root causes are exhaustive) and the `…_partial` theorems; `C09_full_framed` shows that the framed
 encoder of the fix sketch satisfies the full statement.
 -/
 namespace PlzVerif.Props.C09
@@ -105,8 +105,26 @@ theorem pathSer_eq (root path ext : Bytes) (t : Tree) :
     pathSer S root path ext t = hashPre (contentOnly [2]) root (ensureRelative root path) ext t := by
   simp only [pathSer, S, schema_eq]
 
-/-- Exhaustive classification: every collision at a repo-managed path has one of the four known root
-    causes (`classify` does not mention the pre-image function). Outside them the property holds. -/
+/-- Two directories collide exactly when their leaf sequences concatenate to the same bytes: names, nesting, empty
+    directories, link targets and file boundaries play no part. -/
+theorem C09_dir_iff (root path ext : Bytes) (es es' : List (Bytes × Tree)) :
+    pathSer S root path ext (.dir es) = pathSer S root path ext (.dir es') ↔
+      flat [2] (leavesList es) = flat [2] (leavesList es') := by
+  rw [pathSer_eq, pathSer_eq, hashPre_dir, hashPre_dir]
+
+/-- Two repo-managed top-level symlinks collide exactly when their destinations agree after the root prefix was
+    stripped (this covers absolute in-repo destinations too). -/
+theorem C09_symlink_iff (root path ext d d' : Bytes)
+    (m1 : linkManaged root (ensureRelative root path) d = true) (m2 : linkManaged root (ensureRelative root path) d' = true) :
+    pathSer S root path ext (.symlink d) = pathSer S root path ext (.symlink d') ↔ ensureRelative root d = ensureRelative root d' := by
+  rw [pathSer_eq, pathSer_eq, hashPre_link_managed _ _ _ _ _ m1, hashPre_link_managed _ _ _ _ _ m2]
+  constructor
+  · exact List.append_cancel_left
+  · intro h; rw [h]
+
+/-- Classification of collisions at a repo-managed path into the four named root causes.  For most constructor pairs
+    `classify` is the closed form of the pre-image equality (`C09_dir_iff`, `C09_symlink_iff` state that content
+    directly); what the theorem adds is that the four classes are exhaustive and that `same` means equal trees. -/
 theorem C09_classified (root path ext : Bytes) (t u : Tree) (ht : Managed root path t) (hu : Managed root path u)
     (h : pathSer S root path ext t = pathSer S root path ext u) :
     t = u ∨ classify [2] root t u = .names ∨ classify [2] root t u = .unframed ∨
